@@ -12,6 +12,10 @@ COMMON_NOTE = ("Trusted: Coq 8.16.1 kernel + vm_compute (no native_compute); ext
                "(model and implementation run on the same generated inputs on every run, scratch build of the "
                "working tree). ")
 
+AX = ("Axioms reported by Print Assumptions for the theorems that mention the binary32 BM25 kernel (via Flocq / Reals): "
+      "ClassicalDedekindReals.sig_forall_dec, sig_not_dec, FunctionalExtensionality.functional_extensionality_dep, "
+      "Classical_Prop.classic; the invariant theorems are closed under the global context.")
+
 CLAIMED = {
     "C11": dict(
         category="proof",
@@ -164,33 +168,43 @@ CLAIMED = {
         technique="Coq model + three-way correspondence (commutation proof in progress)",
     ),
     "C07": dict(
-        category="other",
-        text=("Cache-aware Coq state machine (docfreq / termfreq / filtered-postings caches, the filter reset of a sliced "
-              "view's parent) run on random operation sequences over a pool of arrays and compared op by op with the real "
-              "objects; additionally every query is repeated at the end, re-asked under a different history, and every "
-              "array returned earlier is checked unmodified. Theorem `every output equals the history-free answer under the "
-              "cache invariant` in progress."),
+        category="proof",
+        text=("Theorems (Props/C07.v) about the cache-aware state machine of View/Purity.v (doc-freq / term-freq / "
+              "filtered-postings caches, the filter reset of a sliced view's parent, fresh output vectors): the cache "
+              "invariant holds initially and is preserved by EVERY operation; under it every output of every operation "
+              "equals the history-free answer, so a repeated query returns its first answer after ANY operation sequence, "
+              "arrays are only appended and the heap only grows. PARTIAL: two facts about the immutable postings are "
+              "explicit premises (slicing twice = slicing once; a document's phrase count depends only on its own "
+              "postings); View_Phrase2.v proves both for indexed corpora on a restricted domain. The check runs the "
+              "machine against the real objects op by op on random histories, repeats every query at the end and under "
+              "another history, and checks earlier returned arrays are unmodified."),
         design_ref="DESIGN.md 7 (C07)",
-        note=COMMON_NOTE + "pickle round trips are mapped to copy in the state machine.",
-        technique="Coq state machine + op-sequence correspondence (invariant proof in progress)",
+        note=COMMON_NOTE + "pickle round trips are mapped to copy in the state machine. " + AX,
+        technique="Coq proof (cache invariant by induction over operations, with two explicit premises) + op-sequence correspondence",
     ),
     "C09": dict(
-        category="other",
-        text=("Coq model of edismax's query-field combination (term-/field-centric choice, running max and sum, tie, mm "
-              "filter, boosts as float32 products) over exact rationals on top of the binary32 BM25 model, compared "
-              "three-way with the real edismax and the declarative DisMax+mm spec (1e-6 relative, exact zero pattern)."),
+        category="proof",
+        text=("Theorem C09_query_field_score (Props/C09.v): for well-formed queries without phrase fields the model of "
+              "edismax (term-/field-centric choice, running max and sum, tie, boosts, mm filter over exact rationals on "
+              "top of the binary32 BM25 model) equals the declarative DisMax + minimum-should-match spec, for every "
+              "number of fields, terms and rows; q_op=AND is mm=100% (C09_and_is_100pct, n <= 50). The check compares "
+              "the real edismax with model and spec (1e-6 relative, exact zero pattern) incl. unknown terms, mm "
+              "variants, boosts, ties and field-centric queries."),
         design_ref="DESIGN.md 7 (C09)",
-        note=COMMON_NOTE + "numpy's float64/float32 combination arithmetic is modelled exactly over Q.",
-        technique="Coq model over Q + three-way correspondence (algebraic proof in progress)",
+        note=COMMON_NOTE + "numpy's float64 combination arithmetic is modelled over Q (compared within 1e-6). " + AX,
+        technique="Coq proof (algebraic equality of algorithm and spec over Q) + three-way correspondence",
     ),
     "C10": dict(
-        category="other",
-        text=("Coq model of the pf / pf2 / pf3 phases on the view of rows with positive query-field score (shingles, boosts, "
-              "scatter-add at matching rows) compared three-way with the real edismax and the spec `query-field score plus "
-              "boost * whole-frame phrase scores, each shingle once, zero stays zero`."),
+        category="proof",
+        text=("Theorems (Props/C10.v): the model of the pf / pf2 / pf3 phases (shingles, boosts, scatter-add at the rows "
+              "with positive query-field score) equals the spec `query-field score plus boost * whole-frame phrase score "
+              "of each shingle once; zero stays zero` (PARTIAL: with the premise that scores on the view of matching "
+              "rows equal the whole-frame scores at those rows, which is C06's theorem for indexed corpora); every "
+              "adjacent pair / triple is produced exactly once and shorter queries add nothing (closed). The check "
+              "compares the real edismax with model and spec incl. multi-field boosts."),
         design_ref="DESIGN.md 7 (C10)",
-        note=COMMON_NOTE + "Relies on view scores using whole-frame statistics (C06).",
-        technique="Coq model over Q + three-way correspondence",
+        note=COMMON_NOTE + "Relies on view scores using whole-frame statistics (C06). " + AX,
+        technique="Coq proof (shingle enumeration + phase algebra, view premise explicit) + three-way correspondence",
     ),
 
     "C17": dict(
@@ -219,16 +233,32 @@ CLAIMED = {
         technique="Coq proof (directory invariant) + history-based differential check incl. fresh interpreters",
     ),
     "C20": dict(
-        category="other",
-        text=("Interleaving model (Conc/Conc.v): queries are programs of atomic actions (handle read + filtered-postings "
-              "cache fill, doc-freq cache, term-freq cache, the handle reset of slicing) on the shared state of Purity.v; "
-              "the check runs 2..16 real threads released from a barrier at switch intervals down to 1 microsecond against "
-              "shared arrays and views, compares with serial execution on identical fresh pools and with the model under "
-              "seeded schedules. The schedule-independence theorem is in progress; real preemption points and dict "
-              "atomicity under the GIL are assumed."),
+        category="proof",
+        text=("Theorems (Props/C20.v) about the interleaving model of Conc/Conc.v (queries = programs of atomic actions on "
+              "the shared state of Purity.v: handle read + filtered-postings fill, doc-freq cache, term-freq cache, the "
+              "handle reset of slicing): in EVERY schedule a finished thread holds the history-free answer computed on "
+              "the initial pool; any schedule that lets every thread finish gives the results of the serial schedule; "
+              "the serial schedule always finishes. PARTIAL: the two postings premises of C07 (the phrase one in a "
+              "per-term mixed form) are explicit; the real scheduler, preemption inside an action, dict atomicity under "
+              "the GIL and nogil sections cannot be exhibited by the model. The check runs 2..16 real threads released "
+              "from a barrier at switch intervals down to 1 microsecond against shared arrays and views, compares with "
+              "serial execution on fresh pools and with the model under seeded schedules."),
         design_ref="DESIGN.md 7 (C20)",
-        note=COMMON_NOTE + "The model's schedule is unrelated to the real scheduler; atomicity of each action assumed.",
-        technique="Coq interleaving model + threaded differential check (proof in progress)",
+        note=COMMON_NOTE + "The model's schedule is unrelated to the real scheduler; atomicity of each action assumed. " + AX,
+        technique="Coq proof (per-action invariant + good-value lemma => schedule independence) + threaded differential check",
+    ),
+    "C15": dict(
+        category="other",
+        text=("Line-level Coq model of _intersect_all and _span_freqs (512-slot span table, compaction, give-up path, "
+              "min-popcount fallback, the compiled 32-bit position mask) run against the real termfreqs(slop=s) on every "
+              "generated case, and the three clauses (exact match stays; a match contains every term; distinct terms, "
+              "length+slop <= 18, in-order window matches) plus integrality decided by the extracted clause oracle "
+              "(Span/Span_Spec.v) on both. No unbounded theorem about the span machine is closed yet, hence `other`: "
+              "the assurance is differential + oracle testing on structured near-miss corpora."),
+        design_ref="DESIGN.md 7 (C15)",
+        note=COMMON_NOTE + "Slop search is documented as experimental; the check found and the repo now repairs two "
+             "defects (exhausted-term read, cross-document cursor drift).",
+        technique="Coq line-level model + clause oracle, model/impl correspondence (no theorem yet)",
     ),
 
     "C19": dict(
